@@ -40,19 +40,33 @@ def make_case(r, i, kind, nfiles, per):
     if kind == 'disjoint': file_of = [h // per for h in range(n)]
     elif kind == 'interleaved': file_of = [h % nfiles for h in range(n)]
     elif kind == 'overlap': file_of = [min(nfiles - 1, max(0, h // per + r.choice([0, 0, 1, -1]))) for h in range(n)]
+    elif kind == 'straggler':      # file N holds one block higher than everything in file N+1 (pairs finish in reverse numeric order)
+        file_of = []
+        for h in range(n):
+            pair, k = divmod(h, 2 * per); file_of.append(2 * pair + (0 if (k < per - 1 or k == 2 * per - 1) else 1))
+    elif kind == 'forkend': file_of = [h // per for h in range(n)]
     else: file_of = [r.randrange(nfiles) for h in range(n)]
     for h in range(n):
         off = c.put_block(file_of[h], blocks[h].raw); c.add_record(blocks[h], h, file_of[h], off)
+        if kind == 'forkend' and h % per == per - 1 and h + 1 < n:
+            # every file ends with a stale sibling (data present, hash sorting BEFORE the active block, so the active block wins) of the first block of the next file
+            for _ in range(3000):
+                sb = Block(blocks[h].hash, [coinbase_tx(h + 1, [(2, b'\x6a\x01\x42')], extra=gen.rb(r, 4))], time=r.getrandbits(31), nonce=r.getrandbits(32))
+                if sb.hash < blocks[h + 1].hash: break
+            if sb.hash < blocks[h + 1].hash: so = c.put_block(file_of[h], sb.raw); c.add_record(sb, h + 1, file_of[h], so, status=0x1d)
+    if kind in ('straggler', 'disjoint') and i % 2 == 0:
+        # a blk file that exists on disk but is named by no record of the chain
+        c.files[max(file_of) + 1] = [(0, gen.rb(r, 64))]
     c.meta.update(kind=kind, file_of=file_of, nfiles=nfiles)
     return c
 
 def explore(ck):
     r = ck.rng; quick = ck.tier == 'quick'
-    ck.rule = ('chains spread over 2..%d blk files with disjoint, overlapping, interleaved and random height spans, ranges starting/stopping inside a file; the open/close system calls on blk files '
+    ck.rule = ('chains spread over 2..%d blk files with disjoint, overlapping, interleaved and random height spans, files that end with a stale sibling of the first block of the next file, files finishing in reverse numeric order, files named by no record, ranges starting/stopping inside a file; the open/close system calls on blk files '
                'are traced with strace and the set of open blk files after each delivered height (located by the on_block trace line) is checked against the property-level bound '
                '{f : a block of a later height is stored in f} (the model\'s open set is a subset of it by C17_open_span) and compared with the model\'s open set; the same layouts are run under '
                'RLIMIT_NOFILE = descriptors of a one-file layout + 3. Non-trivial: >= 3 files and >= 1 file whose span overlaps another; distinct by layout.' % (40 if quick else 300))
-    specs = [('disjoint', 3, 2), ('disjoint', 40 if quick else 300, 2), ('interleaved', 2, 3), ('interleaved', 4, 3), ('overlap', 6, 3), ('random', 5, 4), ('random', 3, 5), ('overlap', 12, 2)]
+    specs = [('disjoint', 3, 2), ('disjoint', 40 if quick else 300, 2), ('forkend', 12 if quick else 60, 2), ('straggler', 10 if quick else 60, 2), ('interleaved', 2, 3), ('interleaved', 4, 3), ('overlap', 6, 3), ('random', 5, 4), ('random', 3, 5), ('overlap', 12, 2)]
     if not quick: specs += [('random', 20, 3), ('interleaved', 30, 2), ('overlap', 60, 2), ('disjoint', 100, 1)]
     cases = []
     for i, (kind, nf, per) in enumerate(specs):
@@ -89,7 +103,7 @@ def explore(ck):
         ck.count('layout:' + c.meta['kind'])
     ck.extra['open_sets_equal_to_model'] = same_as_model
     # descriptor budget: the many-file disjoint layout must run with the descriptors a one-file layout needs + 3
-    big = [c for c in cases if c.meta['kind'] == 'disjoint' and c.meta['nfiles'] >= 40]
+    big = [c for c in cases if (c.meta['kind'] == 'disjoint' and c.meta['nfiles'] >= 40) or c.meta['kind'] in ('forkend', 'straggler')]
     for c in big:
         one = make_case(r, 99, 'disjoint', 1, 4)
         def lim(n):
